@@ -78,7 +78,7 @@ Theorem C05_survives_parent : forall s L p,
   exists s' ret evs, step s (OPut p) = ROk s' ret evs /\
     forall c, upd L p (-1) c > 0 ->
       exists n n', hfind (heap_of s) c = Some n /\ hfind (heap_of s') c = Some n' /\
-        nkind n' = nkind n /\ children n' = children n /\ cb n' = cb n /\
+        nkind n' = nkind n /\ children n' = children n /\ cb n' = cb n /\ ud n' = ud n /\
         rc n' = upd L p (-1) c + indeg (heap_of s') c /\
         (forall x, In x (kid_ids (children n')) -> live (heap_of s') x).
 Proof. exact survives_parent. Qed.
@@ -109,6 +109,36 @@ Theorem C05_all_released_empty_history : forall ops s' L' tr,
 Proof. exact all_released_empty_history. Qed.
 Print Assumptions C05_all_released_empty_history.
 
+(* userdata / serializer registrations (json_object_set_userdata, json_object_set_serializer;
+   userdata NULL or not, delete callback or not, including the (NULL, NULL) reset): over any
+   admissible history no registration's delete callback runs twice, and the registration a live
+   node still carries has not run *)
+Theorem C05_registration_released_once : forall ops,
+  adm_hist init_state L0 ops ->
+  exists s' L' tr, run init_state L0 ops = Some (s', L', tr) /\ NoDup (rels (all_evs tr)) /\
+    forall i n t, hfind (heap_of s') i = Some n -> cb n = Some t -> ~ In (i, t) (rels (all_evs tr)).
+Proof. exact registration_released_once. Qed.
+Print Assumptions C05_registration_released_once.
+
+(* the callback runs exactly when the registration ends.  Replacement: whatever the previous
+   userdata was (NULL included), the previous callback is invoked exactly once, the new pair is
+   installed under a fresh number, nothing else changes.  Destruction: C05_destroyed_exactly
+   (the logged callback is the one installed when the step began). *)
+Theorem C05_set_userdata_releases_old : forall s i u d n,
+  hfind (heap_of s) i = Some n ->
+  step s (OSetUd i u d) =
+    ROk (mkSt (hset (heap_of s) i (mkNode (rc n) (nkind n) (children n) (if d then Some (nxt s) else None) u))
+              (nxt s + 1))
+        0 (match cb n with Some t => [EUser i t] | None => [] end).
+Proof. exact set_userdata_releases_old. Qed.
+Print Assumptions C05_set_userdata_releases_old.
+
+Theorem C05_nonvacuous_registrations :
+  adm_hist init_state L0 ex_reg_ops /\
+  exists s' L' tr, run init_state L0 ex_reg_ops = Some (s', L', tr) /\
+    rels (all_evs tr) = [(1, 0); (1, 2)] /\ all_evs tr = [EUser 1 0; EUser 1 2; EDestroy 1 None].
+Proof. exact ex_regs. Qed.
+
 (* ownership of member names (json_object_object_add_ex flags): a replace keeps the entry's
    key and its constant-key flag, a new member costs one library-owned key copy unless the
    caller lends a constant key, a delete frees at most the one copy of the deleted entry, and
@@ -134,7 +164,7 @@ Print Assumptions C05_all_released_no_key_copies.
 
 Theorem C05_nonvacuous_keys :
   exists s1 s2 s3,
-    step (mkSt [(1, mkNode 1 KObject [] (Some 0))] 2) (OObjAddEx 1 [97] None true true) = ROk s1 0 [] /\
+    step (mkSt [(1, mkNode 1 KObject [] (Some 0) true)] 2) (OObjAddEx 1 [97] None true true) = ROk s1 0 [] /\
     step s1 (OObjAddEx 1 [98] None false false) = ROk s2 0 [] /\
     step s2 (OObjAddEx 1 [97] None false false) = ROk s3 0 [] /\
     heap_key_copies (heap_of s3) = 1 /\
@@ -154,6 +184,6 @@ Proof. exact ex_runs. Qed.
 
 (* non-vacuity of the failure theorem: adding an object to itself is refused *)
 Theorem C05_nonvacuous_failure :
-  step (mkSt [(1, mkNode 1 KObject [] (Some 0))] 2) (OObjAdd 1 [107] (Some 1))
-  = ROk (mkSt [(1, mkNode 1 KObject [] (Some 0))] 2) (-1) [].
+  step (mkSt [(1, mkNode 1 KObject [] (Some 0) true)] 2) (OObjAdd 1 [107] (Some 1))
+  = ROk (mkSt [(1, mkNode 1 KObject [] (Some 0) true)] 2) (-1) [].
 Proof. exact ex_self_add. Qed.
